@@ -69,10 +69,9 @@ def gen_grid(r, name, nice=False, big=False):
     if nice:
         q = 10.0 ** r.randint(-2, 2) if kind != "deg" else 2.0 ** -r.randint(0, 4)
         dx, dy = q * r.randint(1, 40), q * r.randint(1, 40)
-        if kind == "deg":
-            w, h = min(w, int(40 / dx) + 1), min(h, int(30 / dy) + 1)
-        x0 = round(cx / q) * q
-        y0 = round(cy / q) * q
+        w, h = max(1, min(w, int(2 * hs / dx))), max(1, min(h, int(2 * hs / dy)))      # stay inside the CRS's box
+        x0 = round((cx - w * dx / 2) / q) * q
+        y0 = round((cy - h * dy / 2) / q) * q
         ext = (x0, y0, x0 + w * dx, y0 + h * dy)
     else:
         ext = (cx - rx, cy - ry, cx + rx, cy + ry)
